@@ -720,7 +720,7 @@ def short(e, depth=4):
 
 
 class Prog:
-    def __init__(self, factdir):
+    def __init__(self, factdir, override=None):
         self.factdir = factdir
         self.bodies = {}
         self.nbodies = {}  # normalised path -> [Body]
@@ -728,21 +728,30 @@ class Prog:
         self.impls = []
         self.consts = {}
         self.manifests = {}
-        files = sorted(glob.glob(os.path.join(factdir, "*.jsonl")))
         # several compilations of one crate (host/target): keep the one with
-        # the largest feature set
-        best = {}
-        for f in files:
-            man = None
-            with open(f) as fh:
-                for line in fh:
-                    if line.startswith('{"k":"manifest"'):
-                        man = json.loads(line)
-            if man is None:
-                continue
-            c = man["crate"]
-            if c not in best or len(man["features"]) > len(best[c][1]["features"]):
-                best[c] = (f, man)
+        # the largest feature set. `override`: a second fact dir (a cfg variant
+        # of some crates, thorough tier) whose crates replace those of factdir.
+        def pick(d):
+            best = {}
+            for f in sorted(glob.glob(os.path.join(d, "*.jsonl"))):
+                man = None
+                with open(f) as fh:
+                    for line in fh:
+                        if line.startswith('{"k":"manifest"'):
+                            man = json.loads(line)
+                if man is None:
+                    continue
+                c = man["crate"]
+                if c not in best or len(man["features"]) > len(best[c][1]["features"]):
+                    best[c] = (f, man)
+            return best
+
+        best = pick(factdir)
+        self.overridden = []
+        if override:
+            for c, v in pick(override).items():
+                best[c] = v
+                self.overridden.append(c)
         for c, (f, man) in sorted(best.items()):
             self.manifests[c] = man
             with open(f) as fh:
